@@ -14,9 +14,9 @@ from .. import core, env, probe, tex
 from ..gen import soup as gsoup
 from yalafi import defs as ydefs
 
-STEP_A = 400000        # budget = STEP_A + STEP_B * len(source [+ defs])
-STEP_B = 6000
-CPU_SECONDS = 30
+STEP_A = 300000        # budget = STEP_A + STEP_B * len(source [+ defs])
+STEP_B = 2000
+CPU_SECONDS = 20
 
 DIAG_KINDS = [('cannot find closing', 'diag_open_argument'), ('missing end of maths', 'diag_open_maths'),
               ('bad \\verb', 'diag_bad_verb'), ('missing end of verbatim', 'diag_open_verbatim'),
@@ -88,6 +88,42 @@ def exclusion(parser, src, stderr_txt, kind):
         if depth > 150:
             return 'nesting-deeper-than-stack'
     return None
+
+
+def guarded_run(clock, cap, src, opts, ml):
+    """run the real filter under the step budget and the CPU backstop
+    -> (kind, result, stderr, steps, traceback, limit); kind is None if the call returned"""
+    import contextlib
+    import io
+    from yalafi import tex2txt
+    limit = STEP_A + STEP_B * (len(src) + len(opts.get('defs') or ''))
+    cap.last = None
+    clock.begin(limit)
+    kind = None
+    r = None
+    buf = io.StringIO()
+    tb = None
+    try:
+        with probe.CpuGuard(CPU_SECONDS):
+            with contextlib.redirect_stderr(buf):
+                o = dict(opts)
+                o.setdefault('pack', '*')
+                r = tex2txt.tex2txt(src, tex2txt.Options(**o), multi_language=ml)
+    except probe.StepBudgetExceeded:
+        kind = 'steps'
+    except probe.CpuBudgetExceeded:
+        kind = 'cpu'
+    except SystemExit:
+        kind = 'steps' if clock.exceeded else 'SystemExit'
+    except RecursionError as e:
+        kind = 'RecursionError'
+        tb = e.__traceback__
+    except BaseException as e:      # noqa
+        kind = 'steps' if clock.exceeded else type(e).__name__
+        tb = e.__traceback__
+    finally:
+        clock.limit = None
+    return kind, r, buf.getvalue(), clock.count, tb, limit
 
 
 class C07(core.Check):
@@ -162,39 +198,7 @@ class C07(core.Check):
         nt = bool(re.search(r'[\\{}$%#&~^_\[\]]', src))
         if case['fam'] == 'cli':
             return self.judge_cli(case, cnt, nt)
-        limit = STEP_A + STEP_B * (len(src) + len(opts.get('defs') or ''))
-        self.cap.last = None
-        self.clock.begin(limit)
-        kind = None
-        r = None
-        err = ''
-        import io
-        import contextlib
-        buf = io.StringIO()
-        tb = None
-        try:
-            with probe.CpuGuard(CPU_SECONDS):
-                with contextlib.redirect_stderr(buf):
-                    from yalafi import tex2txt
-                    o = dict(opts)
-                    o.setdefault('pack', '*')
-                    r = tex2txt.tex2txt(src, tex2txt.Options(**o), multi_language=ml)
-        except probe.StepBudgetExceeded:
-            kind = 'steps'
-        except probe.CpuBudgetExceeded:
-            kind = 'cpu'
-        except SystemExit:
-            kind = 'steps' if self.clock.exceeded else 'SystemExit'
-        except RecursionError as e:
-            kind = 'RecursionError'
-            tb = e.__traceback__
-        except BaseException as e:      # noqa
-            kind = 'steps' if self.clock.exceeded else type(e).__name__
-            tb = e.__traceback__
-        finally:
-            self.clock.limit = None
-        err = buf.getvalue()
-        steps = self.clock.count
+        kind, r, err, steps, tb, limit = guarded_run(self.clock, self.cap, src, opts, ml)
         cnt['max_steps'] = steps
         cnt['max_steps_per_char'] = steps // (len(src) + len(opts.get('defs') or '') + 20)
         for pat, name in DIAG_KINDS:
